@@ -1,12 +1,13 @@
 ---------------------------- MODULE XrefHistoryMC ----------------------------
 EXTENDS XrefHistory, Json
 \* physical options of the rendered file (all legal; chosen per case)
+\* sparse: the objects of the history are numbered 1, 4, 7, ... (numbers in between never existed)
 \* compact: object numbers without gaps (so /Size is the number of objects, as in files written by ordinary
 \* producers) or with unused numbers between the document's objects and the containers
-Opts == { [big |-> FALSE, w |-> <<1,2,1>>, flate |-> FALSE, eol |-> "lf",   split |-> FALSE, compact |-> TRUE],
-          [big |-> TRUE,  w |-> <<1,4,2>>, flate |-> TRUE,  eol |-> "crlf", split |-> TRUE,  compact |-> FALSE],
-          [big |-> TRUE,  w |-> <<1,3,1>>, flate |-> FALSE, eol |-> "lf",   split |-> TRUE,  compact |-> TRUE],
-          [big |-> FALSE, w |-> <<2,4,2>>, flate |-> TRUE,  eol |-> "cr",   split |-> FALSE, compact |-> FALSE] }
+Opts == { [big |-> FALSE, w |-> <<1,2,1>>, flate |-> FALSE, eol |-> "lf",   split |-> FALSE, compact |-> TRUE, sparse |-> FALSE],
+          [big |-> TRUE,  w |-> <<1,4,2>>, flate |-> TRUE,  eol |-> "crlf", split |-> TRUE,  compact |-> FALSE, sparse |-> FALSE],
+          [big |-> TRUE,  w |-> <<1,3,1>>, flate |-> FALSE, eol |-> "lf",   split |-> TRUE,  compact |-> TRUE, sparse |-> TRUE],
+          [big |-> FALSE, w |-> <<2,4,2>>, flate |-> TRUE,  eol |-> "cr",   split |-> FALSE, compact |-> FALSE, sparse |-> TRUE] }
 NewestMap == [n \in Obj |-> Newest(n)]
 Case(o) == [revs |-> revs, opt |-> o, newest |-> NewestMap]
 \* one case per (history, option set), emitted when the history is opened
